@@ -4,7 +4,30 @@ from vlib.core import Ctx, hexs, unhex, ddmin
 
 ID = "C17"
 MODULES = ["IoraModel.Props.C17"]
-OBLIGATIONS = []
+OBLIGATIONS = [
+    {"id": "C17_R1", "theorem": "Iora.C17.R1_at_most_once", "kind": "proved",
+     "statement": "non-idempotent method: every attempt but the last ended in HttpRequestNotSentError without calling sendSync (all budgets, scripts, client states)"},
+    {"id": "C17_R1_count", "theorem": "Iora.C17.R1_send_count", "kind": "proved",
+     "statement": "non-idempotent method: at most one attempt reaches sendSync"},
+    {"id": "C17_R2", "theorem": "Iora.C17.R2_budget", "kind": "proved",
+     "statement": "every method: attempts <= max(budget,0)+1; the model's fuel is never the reason the loop stops"},
+    {"id": "C17_R3", "theorem": "Iora.C17.R3_framing_not_retried", "kind": "proved",
+     "statement": "every method: an attempt followed by another attempt did not end in HttpFramingError"},
+    {"id": "C17_R3_last", "theorem": "Iora.C17.R3_result_is_last", "kind": "proved",
+     "statement": "the caller gets the outcome of the last attempt"},
+    {"id": "C17_R3_outcomes", "theorem": "Iora.C17.R3_framing_outcomes", "kind": "proved",
+     "statement": "malformed message / response cap / sync-buffer overflow after the request was sent end the attempt in HttpFramingError"},
+    {"id": "C17_R5", "theorem": "Iora.C17.R5_exact", "kind": "proved",
+     "statement": "isIdempotentMethod = exact membership in {GET,HEAD,PUT,DELETE,OPTIONS,TRACE}"},
+    {"id": "C17_R5_case", "theorem": "Iora.C17.R5_case_sensitive", "kind": "proved",
+     "statement": "an idempotent token consists of upper-case ASCII letters only"},
+    {"id": "C17_R5_table", "theorem": "Iora.C17.R5_table_and_defaults", "kind": "proved",
+     "statement": "the extracted table is the RFC 9110 table; every public entry point has default budget 0 and a literal method"},
+    {"id": "C17_R6_bound", "theorem": "Iora.C17.R6_receive_bound", "kind": "proved",
+     "statement": "an attempt makes at most (#need-more answers)+1 receiveSync calls"},
+    {"id": "C17_R6_silence", "theorem": "Iora.C17.R6_silence_ends_attempt", "kind": "proved",
+     "statement": "a silent peer ends the attempt with an error at that receive"},
+]
 ANCHOR_FILES = ["include/iora/network/http_client.hpp", "include/iora/network/transport_impl.hpp"]
 
 # the generator's own table (RFC 9110 §9.2.2) — independent of the source and of the model
